@@ -131,14 +131,14 @@ func main() {
 			if onlyKinds != nil && !onlyKinds[op.Kind] {
 				return
 			}
-			if slow >= 25 && op.Kind != "conc" && op.Kind != "time" {
+			if slow >= 25 && op.Kind != "conc" && op.Kind != "concu" && op.Kind != "time" {
 				g.stat["skipped-after-25-slow-ops"]++
 				return
 			}
 			n++
 			t0 := time.Now()
 			o, v := safeExec(op)
-			if time.Since(t0) > 1900*time.Millisecond && op.Kind != "conc" && op.Kind != "time" {
+			if time.Since(t0) > 1900*time.Millisecond && op.Kind != "conc" && op.Kind != "concu" && op.Kind != "time" {
 				slow++
 			}
 			fmt.Fprintln(ops, op.line(n))
@@ -188,6 +188,9 @@ func main() {
 		sf.Close()
 		fmt.Fprintf(os.Stderr, "harness: %s: %d ops\n", name, n)
 	case "concsolo":
+		if os.Getenv("VERIF_CONC_UDP") == "1" {
+			useUDP = true
+		}
 		var seed int64
 		fmt.Sscan(os.Args[2], &seed)
 		fmt.Println(concWorkload(seed))
